@@ -17,8 +17,8 @@ package proxy
 import (
 	"bytes"
 	"context"
-	"errors"
 	"encoding/hex"
+	"errors"
 	"fmt"
 	"sort"
 	"strings"
@@ -41,7 +41,7 @@ import (
 // ------------------------------------------------------------------ shared pieces
 
 type c13Op struct {
-	K string `json:"k"`           // S SC SE F R RU C | B
+	K string `json:"k"`           // S SC SE SX F R RU R0 RN C | B (relay histories also use S: a handler's own message during the relay)
 	I int    `json:"i,omitempty"` // id
 	V int    `json:"v,omitempty"` // R: 0 failure, 1 success+data, 2 success+empty data; B: 0 data, 1 empty data
 }
@@ -122,6 +122,9 @@ type env struct {
 	due       bool // completion is due (sticky): fired, nothing outstanding, no send in flight
 	earlyResp bool // a registered message was answered before the pre-login event fired
 
+	legacy  bool                              // the client runs a protocol older than 1.13 (no login plugin messages)
+	deliver func(*packet.LoginPluginResponse) // how a client response reaches the login connection
+
 	completions    int
 	snap           []*msg // messages outstanding when the operation that may run the completion began
 	consumerDepth  int
@@ -131,15 +134,18 @@ type env struct {
 
 func (e *env) fail(key, format string, a ...any) { e.x.Fail(key, format, a...) }
 
-func newEnv(x *sched.X, yield bool) *env {
-	c := newKitConn("client", version.Minecraft_1_20.Protocol)
+func newEnv(x *sched.X, yield bool) *env { return newEnvP(x, yield, version.Minecraft_1_20.Protocol) }
+
+func newEnvP(x *sched.X, yield bool, protocol proto.Protocol) *env {
+	c := newKitConn("client", protocol)
 	c.yieldOnWrite = yield
 	c.typ = phase.ModernForge
 	ch, err := message.ChannelIdentifierFrom("verif:login")
 	if err != nil {
 		panic(err)
 	}
-	e := &env{x: x, client: c, ch: ch, curResp: map[int]int{}}
+	e := &env{x: x, client: c, ch: ch, curResp: map[int]int{}, legacy: protocol < version.Minecraft_1_13.Protocol}
+	e.deliver = func(p *packet.LoginPluginResponse) { _ = e.l.handleLoginPluginResponse(p) }
 	e.l = newLoginInboundConn(newInitialInbound(c, netutil.NewAddr("play.example.com:25565", "tcp"), packet.LoginHandshakeIntent))
 	return e
 }
@@ -274,6 +280,12 @@ func (e *env) send(kind string) *msg {
 	e.msgs = append(e.msgs, m)
 	chained := e.consumerDepth > 0 && e.x.CurID() == e.consumerThread
 	if err := e.l.SendLoginPluginMessage(e.ch, []byte{0xA0, byte(m.tag)}, &c13Consumer{e: e, m: m}); err != nil {
+		if e.legacy {
+			// refused (the client cannot take login plugin messages): the message does not exist, nothing
+			// is outstanding because of it
+			e.msgs = e.msgs[:len(e.msgs)-1]
+			return nil
+		}
 		e.fail("send-error", "SendLoginPluginMessage #%d: %v", m.tag, err)
 	}
 	m.id = e.discoverID(m)
@@ -287,6 +299,25 @@ func (e *env) send(kind string) *msg {
 		e.snap = append(e.snap, m)
 	}
 	return m
+}
+
+// sendInvalid is an event handler calling SendLoginPluginMessage with arguments it refuses (no contents /
+// no channel / no consumer, in turn). Whatever it answers, no message exists afterwards: the model is
+// not told about one, so a registration left behind shows up as a completion that never runs.
+func (e *env) sendInvalid(n int) {
+	switch n % 3 {
+	case 0:
+		_ = e.l.SendLoginPluginMessage(e.ch, nil, &c13Consumer{e: e, m: &msg{tag: 99, kind: "plain"}})
+	case 1:
+		_ = e.l.SendLoginPluginMessage(nil, []byte{0xA0, 99}, &c13Consumer{e: e, m: &msg{tag: 99, kind: "plain"}})
+	case 2:
+		_ = e.l.SendLoginPluginMessage(e.ch, []byte{0xA0, 99}, nil)
+	}
+	for _, p := range e.client.packets() {
+		if pm, ok := p.(*packet.LoginPluginMessage); ok && len(pm.Data) == 2 && pm.Data[1] == 99 {
+			e.fail("refused-send-reached-client", "a SendLoginPluginMessage call with invalid arguments wrote message id %d to the client", pm.ID)
+		}
+	}
 }
 
 func (e *env) completion() error {
@@ -362,7 +393,7 @@ func (e *env) respond(id, v int) {
 		target.answered, target.answeredBy = true, id // the model answers it now: a chained send / completion sees it as answered
 	}
 	e.curResp[e.x.CurID()] = id
-	_ = e.l.handleLoginPluginResponse(wireResponse(id, v != 0, data))
+	e.deliver(wireResponse(id, v != 0, data))
 	want := "nil"
 	if v != 0 {
 		want = bodyStr(data)
@@ -508,10 +539,10 @@ type rmsg struct {
 
 type relayEnv struct {
 	*env
-	backend *kitConn
-	handler *backendLoginSessionHandler
-	authSH  *authSessionHandler
-	rmsgs   []*rmsg
+	backend   *kitConn
+	handler   *backendLoginSessionHandler
+	authSH    *authSessionHandler
+	rmsgs     []*rmsg
 	nAnswered int
 }
 
@@ -535,6 +566,9 @@ func newRelayEnv(x *sched.X, yield bool) *relayEnv {
 	deps := &sessionHandlerDeps{eventMgr: newKitEvents(), configProvider: &c13Cfg{cfg: &config.Config{}}}
 	h := &backendLoginSessionHandler{serverConn: sc, requestCtx: &connRequestCxt{Context: context.Background(), response: make(chan *connResponse, 1)}, log: logr.Discard(), sessionHandlerDeps: deps}
 	a := &authSessionHandler{sessionHandlerDeps: deps, log: logr.Discard(), inbound: e.l}
+	e.deliver = func(p *packet.LoginPluginResponse) {
+		a.HandlePacket(&proto.PacketContext{Direction: proto.ServerBound, Protocol: version.Minecraft_1_20.Protocol, PacketID: 0x02, Packet: p})
+	}
 	return &relayEnv{env: e, backend: backend, handler: h, authSH: a}
 }
 
@@ -553,7 +587,8 @@ func (r *relayEnv) backendMsg(op c13Op) {
 		Packet: &packet.LoginPluginMessage{ID: op.I, Channel: ForgeLoginWrapperChannel, Data: m.data}})
 	var fresh []*packet.LoginPluginMessage
 	for _, p := range r.client.packets() {
-		if pm, ok := p.(*packet.LoginPluginMessage); ok && !known[pm.ID] {
+		// (only relayed messages: an event handler's own message may reach the client at the same time)
+		if pm, ok := p.(*packet.LoginPluginMessage); ok && !known[pm.ID] && pm.Channel == ForgeLoginWrapperChannel {
 			fresh = append(fresh, pm)
 		}
 	}
@@ -615,6 +650,19 @@ func respStr(id int, success bool, data []byte) string {
 
 // clientReply: the client's read loop hands the reply to the real authSessionHandler.
 func (r *relayEnv) clientReply(id, v int) {
+	// the id may belong to an event handler's own message (same id space, same outstanding map): that
+	// reply goes to the handler's consumer and the backend hears nothing of it
+	r.resolveIDs()
+	for _, m := range r.outstanding() {
+		if m.id == id {
+			before := r.backendGot()
+			r.respond(id, v)
+			if after := r.backendGot(); len(after) != len(before) {
+				r.fail("relay-backend-got-handler-reply", "the reply for id %d belongs to an event handler's message, yet the backend received %v", id, after[len(before):])
+			}
+			return
+		}
+	}
 	data := replyData(id, v)
 	var target *rmsg
 	for _, m := range r.rmsgs {
@@ -681,6 +729,10 @@ func (r *relayEnv) rdrain() {
 	for _, id := range r.routstanding() {
 		r.clientReply(id, 1)
 	}
+	r.resolveIDs()
+	for _, id := range r.outstandingIDs() {
+		r.clientReply(id, 1)
+	}
 }
 
 // check: totals at the end of a history / schedule.
@@ -698,6 +750,7 @@ func (r *relayEnv) check() {
 	if r.completions != 1 {
 		r.fail("completion-more-than-once", "login completion ran %d times (relay replies must not re-run it)", r.completions)
 	}
+	r.final() // the event handlers' own messages: consumers at most once, each message on the wire once
 }
 
 func (r *relayEnv) relayKey() string {
@@ -724,11 +777,18 @@ func explore1(body func(x *sched.X)) (string, string) {
 	return keys[0], res.Failures[keys[0]].Desc
 }
 
-func runPrelogin(h []c13Op) bfs.Outcome {
+func runPrelogin(h []c13Op) bfs.Outcome { return runPreloginP(h, version.Minecraft_1_20.Protocol) }
+
+func runPreloginLegacy(h []c13Op) bfs.Outcome {
+	return runPreloginP(h, version.Minecraft_1_12_2.Protocol)
+}
+
+func runPreloginP(h []c13Op, protocol proto.Protocol) bfs.Outcome {
 	var key, trace string
 	terminal := false
 	fk, fd := explore1(func(x *sched.X) {
-		e := newEnv(x, false)
+		e := newEnvP(x, false, protocol)
+		nInvalid := 0
 		for _, op := range h {
 			switch op.K {
 			case "S":
@@ -741,8 +801,15 @@ func runPrelogin(h []c13Op) bfs.Outcome {
 				e.fire()
 			case "R":
 				e.respond(op.I, op.V)
+			case "SX":
+				e.sendInvalid(nInvalid)
+				nInvalid++
 			case "RU":
 				e.respond(77, 1)
+			case "R0":
+				e.respond(0, 1) // ids start at 1: 0 is never assigned
+			case "RN":
+				e.respond(-1, 0)
 			case "C":
 				e.cleanup()
 				terminal = true
@@ -791,10 +858,14 @@ func runRelay(h []c13Op) bfs.Outcome {
 			switch op.K {
 			case "B":
 				r.backendMsg(op)
+			case "S":
+				r.send("plain")
 			case "R":
 				r.clientReply(op.I, op.V)
 			case "RU":
 				r.clientReply(77, 1)
+			case "R0":
+				r.clientReply(0, 1)
 			}
 		}
 		x.AtEnd(func() {
@@ -809,14 +880,17 @@ func runRelay(h []c13Op) bfs.Outcome {
 }
 
 func relayEnabled(h []c13Op, op c13Op) bool {
-	if op.K != "B" {
+	if op.K != "B" && op.K != "S" {
 		return true
 	}
 	n := 0
 	for _, o := range h {
-		if o.K == "B" {
+		if o.K == op.K {
 			n++
 		}
+	}
+	if op.K == "S" {
+		return n < 1
 	}
 	return n < 3
 }
@@ -982,6 +1056,42 @@ func scenarios() []schedrun.Scenario {
 				x.Outcome(strings.Join(g, ","))
 			})
 		}},
+		// relay traffic and an event handler's own message share the id space: the backend relays while a
+		// handler sends; the client answers each message once it has seen it on the wire
+		{Name: "causal-relay-vs-handler-send", Quick: 2, Thorough: 4, Body: func(x *sched.X) {
+			r := newRelayEnv(x, true)
+			bdone, hdone := false, false
+			x.Go("backend", func() { r.backendMsg(c13Op{K: "B", I: 5}); bdone = true })
+			x.Go("handler", func() { r.send("plain"); hdone = true })
+			x.Go("client", func() {
+				relayed, own := false, false
+				for !(relayed && own) {
+					progressed := false
+					if id := r.relayWireID(1); id != 0 && !relayed {
+						r.clientReply(id, 1)
+						relayed, progressed = true, true
+					}
+					if id := r.wireID(1); id != 0 && !own {
+						r.clientReply(id, 0)
+						own, progressed = true, true
+					}
+					if !progressed {
+						if bdone && hdone {
+							break
+						}
+						sched.Yield()
+					}
+				}
+			})
+			x.AtEnd(func() {
+				r.rdrain()
+				r.check()
+				if n := len(r.routstanding()); n != 0 || r.nAnswered != 1 {
+					r.fail("relay-backend-answer-missing", "%d relayed messages answered, %d still outstanding after the client replied to all", r.nAnswered, n)
+				}
+				x.Outcome(fmt.Sprintf("backend=%v inv=%s ids=%v", r.backendGot(), r.invSummary(), r.clientMessageIDs()))
+			})
+		}},
 		// cleanup (disconnect) races with responses: consumers still run at most once, completion at most once
 		{Name: "response-vs-cleanup", Quick: -1, Thorough: -1, Body: func(x *sched.X) {
 			e := newEnv(x, true)
@@ -1023,6 +1133,8 @@ func TestVerif(t *testing.T) {
 			run := runPrelogin
 			if strings.HasPrefix(probe.Scenario, "relay") {
 				run = runRelay
+			} else if strings.HasPrefix(probe.Scenario, "prelogin-legacy") {
+				run = runPreloginLegacy
 			}
 			r.Eval(1)
 			if out := run(probe.History); out.FailKey != "" {
@@ -1039,12 +1151,19 @@ func TestVerif(t *testing.T) {
 		if r.Thorough() {
 			depth, rdepth = 8, 8
 		}
-		preOps := []c13Op{{K: "S"}, {K: "F"}, {K: "SE"}, {K: "R", I: 1, V: 1}, {K: "R", I: 2, V: 1}, {K: "SC"}, {K: "R", I: 1, V: 0}, {K: "R", I: 3, V: 2}, {K: "R", I: 2, V: 0}, {K: "RU"}, {K: "R", I: 4, V: 1}, {K: "C"}}
+		preOps := []c13Op{{K: "S"}, {K: "F"}, {K: "SE"}, {K: "R", I: 1, V: 1}, {K: "R", I: 2, V: 1}, {K: "SC"}, {K: "R", I: 1, V: 0}, {K: "R", I: 3, V: 2}, {K: "R", I: 2, V: 0}, {K: "RU"}, {K: "R", I: 4, V: 1}, {K: "C"}, {K: "SX"}, {K: "R0"}, {K: "RN"}}
 		res := bfs.Explore(bfs.Config[c13Op]{Name: "prelogin", Ops: preOps, Depth: depth, Run: runPrelogin, Enabled: preloginEnabled,
 			Shard: r.Shard, NShards: r.NShards, Deadline: r.DeadlineTime()})
 		res.Merge(r, "prelogin")
 
-		relOps := []c13Op{{K: "B", I: 5}, {K: "R", I: 1, V: 1}, {K: "B", I: 6, V: 1}, {K: "R", I: 2, V: 0}, {K: "R", I: 1, V: 2}, {K: "R", I: 2, V: 1}, {K: "R", I: 3, V: 1}, {K: "R", I: 1, V: 0}, {K: "RU"}}
+		// the same alphabet on a 1.12.2 client: every send is refused, completion runs at the event
+		legOps := []c13Op{{K: "S"}, {K: "F"}, {K: "SC"}, {K: "R", I: 1, V: 1}, {K: "RU"}, {K: "C"}}
+		res1 := bfs.Explore(bfs.Config[c13Op]{Name: "prelogin-legacy", Ops: legOps, Depth: 4, Run: runPreloginLegacy, Enabled: preloginEnabled,
+			Shard: r.Shard, NShards: r.NShards, Deadline: r.DeadlineTime()})
+		res1.Merge(r, "prelogin-legacy")
+
+		relOps := []c13Op{{K: "B", I: 5}, {K: "R", I: 1, V: 1}, {K: "B", I: 6, V: 1}, {K: "R", I: 2, V: 0}, {K: "R", I: 1, V: 2}, {K: "R", I: 2, V: 1}, {K: "R", I: 3, V: 1}, {K: "R", I: 1, V: 0}, {K: "RU"},
+			{K: "S"}, {K: "R", I: 4, V: 1}, {K: "R", I: 3, V: 0}, {K: "R0"}}
 		res2 := bfs.Explore(bfs.Config[c13Op]{Name: "relay", Ops: relOps, Depth: rdepth, Run: runRelay, Enabled: relayEnabled,
 			Shard: r.Shard, NShards: r.NShards, Deadline: r.DeadlineTime()})
 		res2.Merge(r, "relay")
